@@ -205,6 +205,26 @@ func vsGenSvc(r *rand.Rand) *vsSvc {
 }
 
 
+// Service k holds an address that another Service holds too
+func vsSharesAddress(last [4]*vsSvc, k int) bool {
+	if last[k] == nil {
+		return false
+	}
+	for j, o := range last {
+		if j == k || o == nil {
+			continue
+		}
+		for _, a := range last[k].IPs {
+			for _, b := range o.IPs {
+				if a == b {
+					return true
+				}
+			}
+		}
+	}
+	return false
+}
+
 // edits of a Service's address set that keep part of it
 func vsEditIPs(r *rand.Rand, ips []string) []string {
 	partner := func(ip string) string { // another address of the same pool
@@ -376,6 +396,15 @@ func vsGenHist(r *rand.Rand) vsHist {
 			h.Evs = append(h.Evs, vsEv{Op: "svc", Name: k, Svc: s})
 		case x < 57:
 			k := r.Intn(4)
+			if r.Intn(2) == 0 { // prefer a Service one of whose addresses is also held by another Service
+				for j := 0; j < 4; j++ {
+					c := (k + j) % 4
+					if vsSharesAddress(last, c) {
+						k = c
+						break
+					}
+				}
+			}
 			last[k] = nil
 			h.Evs = append(h.Evs, vsEv{Op: "del", Name: k})
 		case x < 72:
@@ -972,6 +1001,24 @@ func vsRunHistory(out *vOut, id int, kind string, h vsHist, r *rand.Rand) {
 			vsSetBalancer(k, e.Name, e.Svc)
 			out.Stat("ev_svc", 1)
 		case "del":
+			if cur := w.K[e.Name]; cur != nil { // generator side: the deleted Service shares an address with another one
+				shares := false
+				for j, o := range w.K {
+					if j == e.Name || o == nil {
+						continue
+					}
+					for _, a := range cur.IPs {
+						for _, b := range o.IPs {
+							if a == b {
+								shares = true
+							}
+						}
+					}
+				}
+				if shares {
+					out.Stat("gen_del_of_service_sharing_an_address", 1)
+				}
+			}
 			delete(w.K, e.Name)
 			vsSetBalancer(k, e.Name, nil)
 			out.Stat("ev_del", 1)
@@ -985,6 +1032,12 @@ func vsRunHistory(out *vOut, id int, kind string, h vsHist, r *rand.Rand) {
 			}
 			if orphan {
 				out.Stat("ev_cfg_orphaning", 1)
+			}
+			for n := 0; n < 4; n++ { // generator side: the new configuration has no pool for an existing Service that had one
+				if w.K[n] != nil && w.lastCfg != nil && vsHasPool(w.lastCfg, w.K[n].IPs) && !vsHasPool(e.Cfg, w.K[n].IPs) {
+					out.Stat("gen_cfg_drops_pool_of_existing_service", 1)
+					break
+				}
 			}
 			out.Stat("ev_cfg", 1)
 			built := vsBuildCfg(e.Cfg)
@@ -1090,7 +1143,17 @@ func vsRunHistory(out *vOut, id int, kind string, h vsHist, r *rand.Rand) {
 			}
 			if gone {
 				_, l2 := o.L2[n]
-				_, b := bc.svcAds[vbSvcName(n)]
+				// BGP: reported as advertised to some peer (exported surface), and - white box, any representation - an entry in svcAds
+				b := bc.PeersForService(vbSvcName(n)).Len() > 0
+				if keys, ok := vbSvcAdsKeys(bc); ok {
+					for _, k := range keys {
+						if k == vbSvcName(n) {
+							b = true
+						}
+					}
+				} else {
+					out.Stat("whitebox_skipped:svcAds", 1)
+				}
 				if l2 || b {
 					fail("speaker-announces-for-gone-service", fmt.Sprintf("service s%d is deleted / not a LoadBalancer / without usable address or endpoints but still announced (layer2=%v bgp=%v)", n, l2, b), o, nil)
 				}
@@ -1234,6 +1297,26 @@ func vsRunHistory(out *vOut, id int, kind string, h vsHist, r *rand.Rand) {
 		// unrestricted, else the union of their lists).  Entries kept by F9 (the selecting advertisements
 		// match no local interface) are the recorded finding and are skipped.
 		if w.cfg != nil {
+			// generator-side coverage counters (inputs only)
+			for _, s := range w.K {
+				if s == nil || s.Invalid || len(s.IPs) == 0 || !s.LB {
+					continue
+				}
+				pi := vsPoolIdx(w.cfg, s.IPs)
+				if pi < 0 {
+					continue
+				}
+				for _, a := range w.cfg.Pools[pi].L2 {
+					for _, x := range a.Nodes {
+						if x == 0 {
+							out.Stat("gen_l2_advertisement_selects_this_node", 1)
+							if !a.All && len(a.Ifs) > 0 {
+								out.Stat("gen_l2_advertisement_with_interface_list_selects_this_node", 1)
+							}
+						}
+					}
+				}
+			}
 			for n, ents := range o.L2 {
 				s := w.K[n]
 				if s == nil || s.Invalid || len(s.IPs) == 0 {
@@ -1948,6 +2031,23 @@ func TestVerifSpk(t *testing.T) {
 	}}
 	id++
 	vsRunHistory(out, id, "corpus-address-set-edits", edits, r)
+	// several Services hold one address (address sharing): one of them is deleted / stops being a LoadBalancer /
+	// changes its addresses while the others keep the address; later the last holder goes too
+	sharing := vsHist{Speakers: []int{0}, Evs: []vsEv{
+		{Op: "node", Node: &vsNode{Idx: 0}}, {Op: "cfg", Cfg: dualPool},
+		{Op: "svc", Name: 0, Svc: svcIPs("10.20.30.1", "fc00:30::1")},
+		{Op: "svc", Name: 1, Svc: svcIPs("10.20.30.1")},
+		{Op: "svc", Name: 2, Svc: svcIPs("10.20.30.1", "10.20.30.2")},
+		{Op: "del", Name: 0},
+		{Op: "svc", Name: 0, Svc: svcIPs("fc00:30::1", "10.20.30.2")},
+		{Op: "svc", Name: 2, Svc: &vsSvc{LB: false, IPs: []string{"10.20.30.1", "10.20.30.2"}, Eps: eps}},
+		{Op: "del", Name: 1},
+		{Op: "svc", Name: 1, Svc: svcIPs("10.20.30.2")},
+		{Op: "svc", Name: 0, Svc: svcIPs("fc00:30::1")},
+		{Op: "del", Name: 1}, {Op: "del", Name: 0},
+	}}
+	id++
+	vsRunHistory(out, id, "corpus-services-sharing-an-address", sharing, r)
 	// all BGP peers on one address (different port / VRF): configurations add, change and drop them
 	onePeer := func(ps ...vbPeer) *vsCfg { return &vsCfg{Pools: dualPool.Pools, Peers: ps} }
 	shared := vsHist{Speakers: []int{0}, SharedAddr: true, Evs: []vsEv{
